@@ -687,6 +687,8 @@ def call_builtin(interp, name, args, kwargs, site):
             raise Unsupported("iter(callable, sentinel) builtin")
         if isinstance(v, (Source, GenObj)):
             return v
+        if isinstance(v, Obj) and v.cls.lookup("__iter__") is not None:
+            return (yield from interp.call(v.cls.lookup("__iter__"), [v], {}))
         it = native_iter(v)
         if it is not None:
             return it
@@ -738,7 +740,7 @@ def call_builtin(interp, name, args, kwargs, site):
     if name == "OrderedDict" or name == "collections.OrderedDict":
         from .odmodel import ODict
         return ODict(interp.ctx, ordered=True)
-    if name == "print":
+    if name in ("print", "noop"):
         return None
     if name in ("str", "repr"):
         return "<str>"
